@@ -351,9 +351,9 @@ func runC04(ctx *core.Ctx) {
 			// skipped only when TestWork / -testwork
 			retainOnly := true
 			for _, e := range cg.MustPass(ssax.Point{Block: 0}, func(i ssa.Instruction) bool { return len(rm) == 1 && i == ssa.Instruction(rm[0]) }, false) {
-				if !onAllPaths(cg, e.Last, nil, func(f ssax.Fact) bool {
+				if !onAllPathsVia(cg, e.Last, nil, func(f ssax.Fact) bool {
 					return f.Val && (isFieldLoad("TestWork")(f.Cond) || ssax.DerivedFrom(f.Cond, func(x ssa.Value) bool { return isGlobalLoad("testWork")(x) }, nil))
-				}) {
+				}, func(b int) bool { return len(rm) == 1 && b == rm[0].Block().Index }) {
 					retainOnly = false
 				}
 			}
@@ -422,13 +422,22 @@ func runC04(ctx *core.Ctx) {
 							waited, recorded := false, false
 							cg.Instrs(func(i ssa.Instruction) {
 								if gi, ok := i.(*ssa.Go); ok && ssax.KnownNil(cg.FactsAtInstr(gi), errv, true) {
-									if mc, ok := gi.Call.Value.(*ssa.MakeClosure); ok {
-										fn := mc.Fn.(*ssa.Function)
-										if len(graph(p, fn).Calls(tsPkg+".waitOrStop")) > 0 {
-											for _, b := range mc.Bindings {
-												if ssax.DerivedFrom(b, isVal(cmdv), nil) || derivesFromStoreOf(b, cmdv) {
-													waited = true
-												}
+									// the goroutine is a closure capturing the command, or a function (literal)
+									// that receives it as an argument
+									var fn *ssa.Function
+									var handed []ssa.Value
+									switch x := gi.Call.Value.(type) {
+									case *ssa.MakeClosure:
+										fn, _ = x.Fn.(*ssa.Function)
+										handed = append(handed, x.Bindings...)
+									case *ssa.Function:
+										fn = x
+									}
+									handed = append(handed, gi.Call.Args...)
+									if fn != nil && fn.Blocks != nil && len(graph(p, fn).Calls(tsPkg+".waitOrStop")) > 0 {
+										for _, b := range handed {
+											if ssax.DerivedFrom(b, isVal(cmdv), nil) || derivesFromStoreOf(b, cmdv) {
+												waited = true
 											}
 										}
 									}
@@ -593,25 +602,39 @@ func runC04(ctx *core.Ctx) {
 					cf := mc.Fn.(*ssa.Function)
 					cg := graph(p, cf)
 					defersOld, callsNew := false, false
+					// what a captured variable stands for is read off its binding at the closure's creation
+					role := func(v ssa.Value) string {
+						if u, isU := v.(*ssa.UnOp); isU && u.Op == token.MUL {
+							v = u.X
+						}
+						fv, isFV := v.(*ssa.FreeVar)
+						if !isFV {
+							return ""
+						}
+						for k, x := range cf.FreeVars {
+							if x != fv || k >= len(mc.Bindings) {
+								continue
+							}
+							b := mc.Bindings[k]
+							if ssax.DerivedFrom(b, isFieldLoad("deferred"), nil) || derivesFromStoreOfPred(b, isFieldLoad("deferred")) {
+								return "old"
+							}
+							isParam := func(y ssa.Value) bool { _, ok := y.(*ssa.Parameter); return ok }
+							if isParam(b) || derivesFromStoreOfPred(b, isParam) {
+								return "new"
+							}
+						}
+						return ""
+					}
 					cg.Instrs(func(i ssa.Instruction) {
 						switch x := i.(type) {
 						case *ssa.Defer:
-							if u, isU := x.Call.Value.(*ssa.UnOp); isU {
-								if fv, isFV := u.X.(*ssa.FreeVar); isFV && fv.Name() == "old" {
-									defersOld = true
-								}
-							}
-							if fv, isFV := x.Call.Value.(*ssa.FreeVar); isFV && fv.Name() == "old" {
+							if role(x.Call.Value) == "old" {
 								defersOld = true
 							}
 						case *ssa.Call:
-							if fv, isFV := x.Call.Value.(*ssa.FreeVar); isFV && fv.Name() == "f" {
+							if role(x.Call.Value) == "new" {
 								callsNew = true
-							}
-							if u, isU := x.Call.Value.(*ssa.UnOp); isU {
-								if fv, isFV := u.X.(*ssa.FreeVar); isFV && fv.Name() == "f" {
-									callsNew = true
-								}
 							}
 						}
 					})
